@@ -217,8 +217,8 @@ func runC04(c *Ctx) {
 				})
 			}
 		}
-		if nSites < 3 {
-			c.undecided("C04-R3: %d NewVM sites found outside pkg/vm constructors, floor 3", nSites)
+		if nSites < 2 {
+			c.undecided("C04-R3: %d NewVM sites found outside pkg/vm constructors, floor 2", nSites)
 		}
 		if rl := c.mustFn("C04-R3", vmPkg, "VM.runLoop"); rl != nil {
 			ok := false
@@ -616,8 +616,8 @@ func runC04(c *Ctx) {
 		})
 	}
 	c.Sites["C04-R10#response-writes-examined"] = nW
-	if nW < 10 {
-		c.undecided("C04-R10: only %d response writes found, floor 10", nW)
+	if nW < 7 {
+		c.undecided("C04-R10: only %d response writes found, floor 7", nW)
 	}
 	if wie := c.mustFn("C04-R10", glyphCmd, "writeInternalError"); wie != nil {
 		var body ssa.Instruction
@@ -790,8 +790,8 @@ func runC04(c *Ctx) {
 				c.ob("C04-R11", fnKey(fn)+"#marshal-error-becomes-500", call.Pos(), okErr, "a serialisation failure does not end in the generic 500 writer")
 			})
 		}
-		if n < 3 {
-			c.undecided("C04-R11: %d JSON response writers found in cmd/glyph/handlers.go, floor 3", n)
+		if n < 2 {
+			c.undecided("C04-R11: %d JSON response writers found in cmd/glyph/handlers.go, floor 2", n)
 		}
 	}
 
